@@ -8,6 +8,7 @@ from concurrent.futures import ThreadPoolExecutor
 
 from wvlib import *  # noqa
 import uci_driver
+import searchchecks
 from searchchecks import pos_to_fen, corpus_fens
 
 TERMINALS = ["3R2k1/5ppp/8/8/8/8/8/4K3 b - - 0 1", "7k/5Q2/6K1/8/8/8/8/8 b - - 0 1", "r1bqkbnr/pppp1Qpp/2n5/4p3/2B1P3/8/PPPP1PPP/RNB1K1NR b KQkq - 0 3",
@@ -58,6 +59,8 @@ class Pool:
             elif e["ev"] == "Move":
                 cur["moves"].append(e)
         wv(wvbin, ["play", "--seed", seed + 1, "--games", 10, "--plies", 12, "--emit", "move", "--out-prefix", os.path.join(wd, "poolstart")])
+        self.hard_roots = [l.strip() for l in open(os.path.join(CORPUS, "doomed.fen")) if l.strip() and not l.startswith("#")]
+        self.hard_roots += searchchecks.forced_roots()
         self.start_games = []
         for l in open(os.path.join(wd, "poolstart.move.ndjson")):
             e = json.loads(l)
@@ -86,6 +89,10 @@ class Pool:
                     "moves": move_triples(mv, k), "valid": True}
         if r.random() < 0.15:
             f = r.choice(COLLISION[0] + tuple(TINY))
+            return {"kind": "position", "line": "position fen " + f, "base": "fen", "fen": list(f), "pos": uci_driver.fen_to_pos(f), "moves": [], "valid": True}
+        if r.random() < 0.10:
+            # the side to move is lost whatever it plays (mate in one after every move) or has a single legal move: a bestmove is owed
+            f = r.choice(self.hard_roots)
             return {"kind": "position", "line": "position fen " + f, "base": "fen", "fen": list(f), "pos": uci_driver.fen_to_pos(f), "moves": [], "valid": True}
         if r.random() < 0.12:
             # late in a long game: the halfmove clock at or past 100 does not end the game, a go is still owed its bestmove
@@ -325,6 +332,11 @@ def check_uci(pid, tier, seed):
         pc = pool.position_cmd("open")
         sessions.append((200000 + j, True, "immediate", [pc, {"kind": "go", "line": "go movetime 2500", "long": True}, {"kind": "isready", "line": "isready"},
                                                             {"kind": "stop", "line": "stop"}, {"kind": "quit", "line": "quit"}]))
+    if pid == "C07":
+        for j, f in enumerate(pool.hard_roots if not quick else pool.hard_roots[seed % 3::3]):
+            pc = {"kind": "position", "line": "position fen " + f, "base": "fen", "fen": list(f), "pos": uci_driver.fen_to_pos(f), "moves": [], "valid": True}
+            sessions.append((250000 + j, True, "immediate", [pc, {"kind": "go", "line": rnd.choice(["go depth 1", "go depth 3", "go movetime 200"])}, {"kind": "wait", "line": "", "timeout": 20.0},
+                                                             {"kind": "go", "line": "go"}, {"kind": "stop", "line": "stop"}, {"kind": "quit", "line": "quit"}]))
     for j, cmdsq in enumerate(extra * (1 if quick else 10)):
         sessions.append((100000 + j, True, "immediate", concretize({"start": "book", "cmds": cmdsq}, pool, rnd)))
     if pid == "C07":
